@@ -6,8 +6,14 @@ PROP = {
     "jobs": [
         job("acl", "extras", "./outbounds/acl/", "acl",
             ["harness/extras/outbounds/acl/c09_model_test.go",
-             "harness/extras/outbounds/acl/c09_ruleset_test.go"], "^TestVerifC09",
+             "harness/extras/outbounds/acl/c09_ruleset_test.go"], "^TestVerifC09(History|BigCache|Concurrent)$",
             ["acl-history", "acl-bigcache", "acl-concurrent"], race=True,
+            timeout_quick=600, timeout_thorough=3600),
+        # the > 65 536-rule list is single-threaded and scan-heavy: run it without the race detector
+        job("acl-long", "extras", "./outbounds/acl/", "acl",
+            ["harness/extras/outbounds/acl/c09_model_test.go",
+             "harness/extras/outbounds/acl/c09_ruleset_test.go"], "^TestVerifC09LongList$",
+            ["acl-longlist"], race=False,
             timeout_quick=600, timeout_thorough=3600),
         job("engine", "extras", "./outbounds/", "outbounds",
             ["harness/extras/outbounds/c09_model_test.go",
@@ -15,7 +21,7 @@ PROP = {
             ["engine-history", "engine-concurrent"], race=True,
             timeout_quick=600, timeout_thorough=3600),
     ],
-    "parallel": 2,
+    "parallel": 3,
     "race_oracle": True,
     "race_files": ["extras/outbounds/acl/", "extras/outbounds/acl.go"],
     "min_events": 50000,
@@ -38,7 +44,13 @@ PROP = {
              "the port edges of ALL rules covering them; plus random ones. Each history asks every query >= 3 times at different points "
              "(permutation, immediate/near repeats, sibling bursts, derivation order, permutation) against "
              "cache sizes 1, 4 and 1024 (and > 1024 distinct queries against 1024), then a cold lookup on a "
-             "fresh rule set. Engine layer: the same cases through aclEngine with recording fake outbounds; requests "
+             "fresh rule set. One in eight IPv4 address/CIDR rules is written in IPv4-mapped notation "
+             "(::ffff:a.b.c.d, prefix+96) and one in eight hosts carries an IPv4-mapped address in its IPv6 slot "
+             "(as an AAAA answer may), judged as the IPv4 address it denotes. Long list (job acl-long, no race "
+             "detector): one synthetic list of 67 036 rules (thorough also 131 772), every rule with its own "
+             "address and a hijack address encoding its position; probes whose deciding rule sits at positions "
+             "0,1,2,254..257, 65533..65538 (and 131069..131074), the last two rules, the final `all` rule and a "
+             "miss; each asked cold, immediately again and twice more (cache hits). Engine layer: the same cases through aclEngine with recording fake outbounds; requests "
              "carry ResolveInfo nil / empty / Err only / addresses / addresses together with Err (partial "
              "resolution: one of the A/AAAA lookups failed), the last judged on the addresses present. "
              "A case = (rule list, query); non-trivial when the query is decided by a rule (not a miss); "
@@ -49,7 +61,10 @@ PROP = {
         "`*` may stand for the empty string is undocumented, so such queries are only required to be answered "
         "consistently and with one of the two readings",
         "IP and CIDR patterns are matched against the resolved IPv4/IPv6 of the request, family-strict; "
-        "IPv4-mapped IPv6 addresses are not generated",
+        "an IPv4-mapped IPv6 address (::ffff:a.b.c.d), in a rule or in either "
+        "resolved-address slot, denotes the IPv4 address a.b.c.d (RFC 4291 2.5.5.2; the meaning net.IP.Equal / "
+        "IPNet.Contains give it); mapped-notation CIDR rules are only written with prefix >= 96 and mapped request "
+        "addresses are not generated next to a `::/0` rule, where the two readings would differ",
         "not demanded: `|` in names, IDN / xn-- labels, port 0 in rules, geoip:/geosite: matchers",
         "interface.go documents that ResolveInfo may hold an error together with resolved addresses; such "
         "addresses are resolved addresses of the host and IP/CIDR rules apply to them (Err alone: name only)",
